@@ -155,7 +155,9 @@ def parse_match(text):
             if "*" not in text:
                 raise ParseError(str(e)) from e
             # support globbed targets with version restrictions
-            return packages.AndRestriction(*parse_globbed_version(text, orig_text))
+            return packages.AndRestriction(
+                *restrictions, *parse_globbed_version(text, orig_text)
+            )
 
     r = list(map(convert_glob, tsplit))
     if not r[0] and not r[1]:
